@@ -390,9 +390,11 @@ func (fc *FnCtx) assertGlobalValue(key string, g *ssa.Global, init ast.Expr, inf
 		tb.AddAxiom("global "+g.Name(), tb.And(facts...))
 		fc.note("package variable " + g.String() + " treated as constant (no store outside init found)")
 	default:
-		// slices/maps of literals: the global holds a reference; contents live in the heap and
-		// could be mutated through aliases, so only the reference is constant. Not asserted.
+		// slices/maps of literals: the global holds a reference; contents live in the heap
 		delete(fc.eng.constGlobals, key)
+		if _, isSl := u.(*types.Slice); isSl {
+			fc.assertGlobalSliceLiteral(key, g, cl, info)
+		}
 	}
 }
 
